@@ -67,6 +67,7 @@ type op struct {
 	faultable  bool
 	target     *thread // join
 	pos        string  // source position (file:line) when known
+	bad        bool    // unlock: the mutex was not locked (the real call would be a fatal error nothing can recover)
 	sym        *SymTok // spawn: the loop instance of an interchangeable-worker spawn site (nil: ordinary spawn)
 }
 
@@ -579,7 +580,12 @@ func MutexLock(m *sync.Mutex) {
 
 func MutexUnlock(m *sync.Mutex) {
 	if x, t := self(); x != nil {
-		x.park(t, &op{kind: opUnlock, obj: x.ptrObj(m, "mutex"), pos: caller(2)}, true)
+		o := &op{kind: opUnlock, obj: x.ptrObj(m, "mutex"), pos: caller(2)}
+		x.park(t, o, true)
+		if o.bad {
+			// the real call would end the process with a fatal error; here it is a verdict on this schedule
+			panic("sync: unlock of unlocked mutex")
+		}
 	}
 	m.Unlock()
 }
@@ -593,7 +599,12 @@ func RWLock(m *sync.RWMutex) {
 
 func RWUnlock(m *sync.RWMutex) {
 	if x, t := self(); x != nil {
-		x.park(t, &op{kind: opUnlock, obj: x.ptrObj(m, "rwmutex"), pos: caller(2)}, true)
+		o := &op{kind: opUnlock, obj: x.ptrObj(m, "rwmutex"), pos: caller(2)}
+		x.park(t, o, true)
+		if o.bad {
+			// the real call would end the process with a fatal error; here it is a verdict on this schedule
+			panic("sync: unlock of unlocked mutex")
+		}
 	}
 	m.Unlock()
 }
@@ -607,7 +618,12 @@ func RWRLock(m *sync.RWMutex) {
 
 func RWRUnlock(m *sync.RWMutex) {
 	if x, t := self(); x != nil {
-		x.park(t, &op{kind: opRUnlock, obj: x.ptrObj(m, "rwmutex"), pos: caller(2)}, true)
+		o := &op{kind: opRUnlock, obj: x.ptrObj(m, "rwmutex"), pos: caller(2)}
+		x.park(t, o, true)
+		if o.bad {
+			// the real call would end the process with a fatal error; here it is a verdict on this schedule
+			panic("sync: unlock of unlocked mutex")
+		}
 	}
 	m.RUnlock()
 }
@@ -1016,11 +1032,14 @@ func (x *exec) apply(tr trans) {
 	case opLock:
 		obj.owner = t
 	case opUnlock:
+		o.bad = obj.owner == nil
 		obj.owner = nil
 	case opRLock:
 		obj.readers++
 	case opRUnlock:
-		obj.readers--
+		if o.bad = obj.readers <= 0; !o.bad {
+			obj.readers--
+		}
 	case opWGAdd:
 		obj.counter += o.delta
 		st.Answer = o.delta
